@@ -71,6 +71,7 @@ type Contract struct {
 	Writes     []*WriteSpec
 	AllocBound *Clause
 	AllocSite  *Clause
+	NoReads    []*DelegateSpec // Callee = "Type.field": the function never reads that struct field
 	NoGlobals  []string // tags: the function (and what it inlines) references no package-level variable
 	Delegates  *DelegateSpec
 	Trust      []string // obligation kinds assumed instead of proved in this function (reported)
@@ -341,6 +342,8 @@ func (sp *Specs) parseLine(cur **Contract, line, file string, ln int) error {
 			return err
 		}
 		c.Writes = append(c.Writes, &WriteSpec{Ptr: parts[0], N: e, Tags: tags})
+	case "noreads":
+		c.NoReads = append(c.NoReads, &DelegateSpec{Tags: tags, Callee: strings.TrimSpace(rest)})
 	case "noglobals":
 		c.NoGlobals = tags
 		if len(tags) == 0 {
